@@ -74,6 +74,9 @@ func buildScenario(rng *rand.Rand, o genOpts, extraNodes int, allowBatch bool, a
 			evs = downClosed(rng, d.events)
 		}
 		order := topoOrder(rng, evs)
+		if rng.Intn(3) == 0 {
+			order = randomDelayed(rng, evs) // creation order with a few events delivered as late as possible
+		}
 		var batch func(i int) bool
 		if allowBatch && o.extra == 0 && (k <= 2 || rng.Intn(3) == 0) {
 			mode := rng.Intn(4)
@@ -472,6 +475,27 @@ func runHGWith(r *Result, thorough bool, prop string, rng *rand.Rand) {
 	cases := map[string]int{"C01": 24, "C02": 14, "C03": 14, "C04": 14, "C18": 10}[prop]
 	if thorough {
 		cases *= 8
+	}
+	if prop != "C18" {
+		// corpus first: the scripted slow election with every delayed delivery of one event
+		max := 24
+		if thorough {
+			max = 200
+		}
+		sc := buildCorpusScenario(rng, corpusSlowElection, 4, max)
+		checkOracles(r, sc)
+		measure(r, sc)
+		r.Count(sc.canon, true)
+		r.Inc("corpus_scenarios", 1)
+		r.Inc("corpus_delayed_orders", len(sc.nodes)-1)
+		r.Inc("ops", len(sc.cs[0].Ops))
+		for _, op := range sc.cs[0].Ops {
+			if strings.HasPrefix(op, "HG dag ") {
+				r.Inc("declarative_model_views_compared", 1)
+			}
+		}
+		r.Compare(sc.cs[0])
+		sc.close()
 	}
 	for i := 0; i < cases; i++ {
 		dynamic := (prop == "C01" || prop == "C02" || prop == "C04") && i%3 == 2
